@@ -9,8 +9,27 @@
    A semantic edit of the Go source (field order or width of STLHeader /
    STLTriangle, BigEndian, another size formula or threshold in LoadSTL, another test
    on the vertex lines, a dropped rewind, another float conversion or vertex order in
-   the writers) changes the generated term and breaks the lemma named after the
-   function; renaming, reformatting and named constants do not. *)
+   the writers) changes what the generated term computes and breaks the lemma named
+   after the function.
+
+   Behaviour-preserving rewrites of the source must NOT break a lemma.  Three devices:
+   * the translator emits normal forms (harness/iogen/loops.go: index loops = range loops,
+     X[i] inside `for i := range X` is the element, small constant loops are unrolled,
+     `if !c` is `if c` with the branches swapped, switch = if-chain, ...);
+   * every definition is instantiated BY NAME ([by_name], Io/GoSem.v): the Section variables
+     a generated definition is abstracted over depend on which library calls the current
+     spelling uses; the models are posed under the variables' names and applied to whatever
+     binders the definition has; `Proof using` pins the parameters of the _m definitions the
+     theorems of Props/ mention;
+   * the proofs do not match on the shape of the generated term: helper functions the
+     translator finds (hint database iogen_helpers) and lets are unfolded first; a loop is
+     characterised by an invariant ([range_loop_inv], [for_upto_inv01]) over the components
+     of its state that are found BY TYPE ([proj_of]), whatever other variables the state
+     carries (an err declared outside the loop, a record declared inside or outside); the
+     one-iteration obligations and the straight-line parts are discharged by running the body
+     on the cases of its inputs ([simpl_errs], [decide_zlen], [wraps_away], [explode_records]),
+     so nesting and order of tests, early returns, `continue`, append vs make+index, helper
+     extraction and named constants do not matter. *)
 From Coq Require Import ZArith NArith List Lia Bool Floats.
 From Coq Require String.
 From Sdfx Require Import Io.F32 Io.Stl Io.StlLoad Io.GoSem Generated.IoExpr.
@@ -112,6 +131,19 @@ Definition outcome_of {W} (r : res (list tri * W)) : outcome :=
   | Val _ (Some _) => Err
   end.
 
+(* the models of os / bufio / encoding/binary (Io/GoSem.v) and of the float32 conversions
+   (Io/F32.v), under the names of the Section variables of Generated/IoExpr.v *)
+Ltac pose_stl_io :=
+  pose (F64 := spec_float); pose (F32 := word); pose (World := fw); pose (FileInfo := Z);
+  pose (to64 := widen32); pose (to32 := narrow32);
+  pose (unbits32 := fun n : N => n); pose (bits32 := fun n : N => n);
+  pose (os_Open := GoSem.os_Open); pose (os_Create := GoSem.os_Create); pose (file_Stat := GoSem.file_Stat);
+  pose (file_Seek := GoSem.file_Seek); pose (file_Close := GoSem.file_Close);
+  pose (FileInfo_Size := GoSem.FileInfo_Size); pose (binary_Read := GoSem.binary_Read);
+  pose (binary_Write_file := GoSem.binary_Write_file);
+  pose (binary_Write_bufio := GoSem.binary_Write_bufio bufio_default_size);
+  pose (bufio_Flush := GoSem.bufio_Flush).
+
 Section Loaders.
   (* oracles: what bufio.Scanner delivers for a byte string (tokens, final error), strings.Fields,
      strconv.ParseFloat(s, 64); fz is the value of an integer literal of type float64 *)
@@ -127,60 +159,85 @@ Section Loaders.
       match pf s with Some x => (x, None) | None => (fz 0%Z, pf_err) end
     else (fz 0%Z, new_error 1001).
 
-  Definition parseFloats_m := gen_parseFloats spec_float fz ParseFloat.
+  Definition parseFloats_m : list string -> res (list spec_float).
+  Proof using pf fz. by_name ltac:(pose_stl_io; pose (strconv_ParseFloat := ParseFloat)) gen_parseFloats. Defined.
 
   Lemma upd_nat_app {A} (done : list A) z zs v :
     upd_nat (done ++ z :: zs) (length done) v = Some (done ++ v :: zs).
   Proof. induction done as [|d done IH]; cbn [app length upd_nat]; [reflexivity | now rewrite IH]. Qed.
 
-  Lemma pf_loop (g : Z -> string -> list spec_float -> ctl (list spec_float) (res (list spec_float))) :
-    (forall i x out, g i x out =
-       match pf x with
-       | None => Return (Val [] pf_err)
-       | Some v => match upd out i v with None => Return GoSem.Panic | Some o => Next o end
-       end) ->
-    forall l done zs, length zs = length l ->
-    range_loop g (zlen done) l (done ++ zs) =
+  Lemma parse_floats_snoc l x :
+    parse_floats pf (l ++ [x]) =
     match parse_floats pf l with
-    | Some o => Next (done ++ o)
-    | None => Return (Val [] pf_err)
+    | None => None
+    | Some o => match pf x with None => None | Some v => Some (o ++ [v]) end
     end.
   Proof.
-    intros Hg. induction l as [|x l IH]; intros done zs Hz; cbn [range_loop parse_floats].
-    - destruct zs; [reflexivity | discriminate Hz].
-    - destruct zs as [|z zs]; [discriminate Hz|]. rewrite Hg.
-      destruct (pf x) as [v|]; [|reflexivity].
-      unfold upd, zlen. destruct (Z.ltb_spec (Z.of_nat (length done)) 0); [lia|].
-      rewrite Nat2Z.id, upd_nat_app.
-      replace (done ++ v :: zs) with ((done ++ [v]) ++ zs) by now rewrite <- app_assoc.
-      replace (Z.of_nat (length done) + 1)%Z with (zlen (done ++ [v])) by (unfold zlen; rewrite app_length; cbn [length]; lia).
-      rewrite IH by (cbn [length] in Hz; lia).
-      destruct (parse_floats pf l); [|reflexivity]. now rewrite <- app_assoc.
+    induction l as [|y l IH]; cbn [app parse_floats].
+    - destruct (pf x); reflexivity.
+    - destruct (pf y); [|reflexivity]. rewrite IH. destruct (parse_floats pf l); [|reflexivity].
+      destruct (pf x); reflexivity.
   Qed.
 
-  (* parseFloats = parse_floats of the model *)
+  Lemma parse_floats_fail l k x : nth_error l k = Some x -> pf x = None -> parse_floats pf l = None.
+  Proof.
+    revert k; induction l as [|y l IH]; intros [|k] Hn Hx; cbn [nth_error] in Hn; try discriminate; cbn [parse_floats].
+    - inversion Hn. subst. now rewrite Hx.
+    - destruct (pf y); [|reflexivity]. now rewrite (IH k Hn Hx).
+  Qed.
+
+  (* parseFloats = parse_floats of the model.  The loop is characterised by an invariant on the
+     output slice, so the proof does not depend on how the slice is built: allocated with
+     make([]float64, len(in)) and filled by index, or grown with append from an empty one; the
+     elements read through the range value or as in[i]. *)
   Lemma parseFloats_eq l :
     parseFloats_m l = match parse_floats pf l with Some o => Val o None | None => Val [] pf_err end.
   Proof.
-    unfold parseFloats_m, gen_parseFloats, make_slice.
-    destruct (Z.ltb_spec (zlen l) 0) as [H|_]; [pose proof (zlen_nonneg l); lia|].
-    unfold zlen at 1. rewrite Nat2Z.id.
-    erewrite (range_loop_ext _ (fun i x out =>
-       match pf x with
-       | None => Return (Val [] pf_err)
-       | Some v => match upd out i v with None => Return GoSem.Panic | Some o => Next o end
-       end) l [] 0%Z _ eq_refl).
-    - pose proof (pf_loop _ (fun _ _ _ => eq_refl) l [] (repeat (fz 0%Z) (length l)) (repeat_length _ _)) as P.
-      cbn [app] in P. change (zlen (@nil spec_float)) with 0%Z in P. rewrite P.
-      destruct (parse_floats pf l); reflexivity.
-    - intros k x s' Hk _. cbn [app] in Hk. rewrite idx_nat, Hk. unfold ParseFloat. cbn [Z.eqb Pos.eqb].
-      destruct (pf x) as [v|]; cbn [err_nonnil pf_err new_error]; [|reflexivity].
-      destruct (upd s' (Z.of_nat k) v); reflexivity.
+    unfold parseFloats_m, gen_parseFloats. autounfold with iogen_helpers. cbv zeta.
+    (* the initial slice *)
+    try (unfold make_slice; destruct (Z.ltb_spec (zlen l) 0) as [H|_]; [pose proof (zlen_nonneg l); lia|];
+         unfold zlen at 1; rewrite Nat2Z.id).
+    match goal with |- context [range_loop ?b 0%Z l ?s0] =>
+      pose proof (range_loop_inv b
+        (fun k out => exists o, parse_floats pf (firstn k l) = Some o /\ firstn k out = o /\
+                                ((length s0 = length l /\ length out = length l) \/ (length s0 = 0%nat /\ length out = k)))
+        (fun r => parse_floats pf l = None /\ r = Val [] pf_err) l) as L;
+      cbv beta in L; specialize (fun Hstep Hinit => L Hstep s0 Hinit)
+    end.
+    match type of L with ?Pstep -> ?Pinit -> _ => assert (Hstep : Pstep); [|assert (Hinit : Pinit); [|specialize (L Hstep Hinit)]] end.
+    - intros k x out Hk (o & Ho & Hf & Hlen).
+      pose proof (nth_error_lt _ _ _ Hk) as Hlt.
+      unfold ParseFloat. cbn [Z.eqb Pos.eqb].
+      destruct (pf x) as [v|] eqn:Ex; cbn [err_nonnil pf_err new_error].
+      + assert (Hn : parse_floats pf (firstn (S k) l) = Some (o ++ [v]))
+          by (rewrite (nth_error_firstn_S _ _ _ Hk), parse_floats_snoc, Ho, Ex; reflexivity).
+        destruct Hlen as [[H0 Hl]|[H0 Hl]].
+        * (* the slice has its final length: filled by index *)
+          try (rewrite upd_ok by lia).
+          first [ eexists; split; [exact Hn|]; split;
+                  [ rewrite firstn_snoc_exact by (rewrite firstn_length; lia); now rewrite Hf
+                  | left; split; [exact H0|]; rewrite app_length; cbn [length]; rewrite firstn_length, skipn_length; lia ]
+                | exfalso; cbn [length] in H0; lia ].
+        * (* the slice starts empty: grown by append *)
+          first [ exfalso; rewrite repeat_length in H0; lia
+                | eexists; split; [exact Hn|]; split;
+                  [ rewrite firstn_all2 by (rewrite app_length; cbn [length]; lia); rewrite <- Hf, <- Hl, firstn_all; reflexivity
+                  | right; split; [exact H0|]; rewrite app_length; cbn [length]; lia ] ].
+      + split; [exact (parse_floats_fail _ _ _ Hk Ex) | reflexivity].
+    - exists []. cbn [firstn parse_floats]. repeat split.
+      first [ left; split; apply repeat_length | right; split; reflexivity ].
+    - match type of L with match ?t with _ => _ end => destruct t as [out|r] end.
+      + destruct L as (o & Ho & Hf & Hlen). rewrite firstn_all in Ho. rewrite Ho. f_equal.
+        destruct Hlen as [[_ Hl]|[_ Hl]]; rewrite <- Hf, <- Hl, firstn_all; reflexivity.
+      + destruct L as [-> ->]. reflexivity.
   Qed.
 
   (* ---- loadSTLAscii *)
   Definition scan_w (w : fw) : list string * error := scan (fw_rest w).
-  Definition loadSTLAscii_m := gen_loadSTLAscii spec_float fw fz scan_w Fields ParseFloat.
+  Ltac pose_loaders :=
+    pose_stl_io; pose (bufio_scan := scan_w); pose (strings_Fields := Fields); pose (strconv_ParseFloat := ParseFloat).
+  Definition loadSTLAscii_m : fw -> res (list tri * fw).
+  Proof using scan Fields pf fz. by_name ltac:(pose_loaders) gen_loadSTLAscii. Defined.
   (* the file as the model sees it: bytes, the scanner's tokens split into fields, scanner error *)
   Definition file_at (w : fw) : file :=
     {| f_bytes := fw_disk w; f_lines := map Fields (fst (scan_w w)); f_scan_err := err_nonnil (snd (scan_w w)) |}.
@@ -249,46 +306,76 @@ Section Loaders.
       + destruct fuelg; cbn [group]; (destruct (Nat.ltb_spec i (length v)); [lia | reflexivity]).
   Qed.
 
-  (* loadSTLAscii = load_ascii of the model (repaired version), for every file and every oracle *)
+  (* comparisons of a length with a literal, decided once the list is a cons-list with a known prefix *)
+  Ltac decide_zlen :=
+    repeat match goal with
+           | |- context [(zlen ?l =? ?n)%Z] =>
+             let H := fresh in destruct (Z.eqb_spec (zlen l) n) as [H|H]; unfold zlen in H; cbn [length] in H; try (exfalso; lia); clear H
+           | |- context [(?n =? zlen ?l)%Z] =>
+             let H := fresh in destruct (Z.eqb_spec n (zlen l)) as [H|H]; unfold zlen in H; cbn [length] in H; try (exfalso; lia); clear H
+           | |- context [(zlen ?l <? ?n)%Z] =>
+             let H := fresh in destruct (Z.ltb_spec (zlen l) n) as [H|H]; unfold zlen in H; cbn [length] in H; try (exfalso; lia); clear H
+           | |- context [(?n <? zlen ?l)%Z] =>
+             let H := fresh in destruct (Z.ltb_spec n (zlen l)) as [H|H]; unfold zlen in H; cbn [length] in H; try (exfalso; lia); clear H
+           | |- context [(zlen ?l <=? ?n)%Z] =>
+             let H := fresh in destruct (Z.leb_spec (zlen l) n) as [H|H]; unfold zlen in H; cbn [length] in H; try (exfalso; lia); clear H
+           | |- context [(?n <=? zlen ?l)%Z] =>
+             let H := fresh in destruct (Z.leb_spec n (zlen l)) as [H|H]; unfold zlen in H; cbn [length] in H; try (exfalso; lia); clear H
+           end.
+
+  (* list operations on lists with a known prefix; calls of translated functions stay folded *)
+  Ltac go_cbn :=
+    cbn [obind idx slice_from upd upd_nat Z.ltb Z.leb Z.eqb Z.compare Pos.compare Pos.compare_cont Pos.eqb
+         zlen Z.of_nat Pos.of_succ_nat Pos.succ Z.to_nat Nat.add Nat.eqb nth_error tl skipn firstn length app
+         andb orb negb err_nonnil err_eqb goerr_eqb fst snd];
+    change (Pos.to_nat 1) with 1%nat; change (Pos.to_nat 2) with 2%nat; change (Pos.to_nat 3) with 3%nat;
+    change (Pos.to_nat 4) with 4%nat;
+    cbn [nth_error skipn firstn tl].
+
+  (* loadSTLAscii = load_ascii of the model (repaired version), for every file and every oracle.
+     The per-line step is checked by running the generated body on every shape of the field list
+     (0 .. 4 fields, more), so the test on the line may be spelled and ordered in any way
+     (nested ifs, `continue`, != instead of ==); likewise the grouping loop. *)
   Lemma loadSTLAscii_eq w : outcome_of (loadSTLAscii_m w) = load_ascii pf Repaired (file_at w).
   Proof.
-    unfold loadSTLAscii_m, gen_loadSTLAscii, load_ascii, file_at. cbn [f_lines f_scan_err].
-    unfold tri, vec.
+    unfold loadSTLAscii_m, gen_loadSTLAscii, load_ascii, file_at. autounfold with iogen_helpers. cbv zeta.
+    cbn [f_lines f_scan_err]. unfold tri, vec.
+    pose proof parseFloats_eq as PF. unfold parseFloats_m in PF.
     match goal with |- context [range_loop ?b 0%Z (fst (scan_w w)) []] => set (body := b) end.
     rewrite (scan_loop w body).
-    2:{ intros i line v. unfold body. unfold is_vertex_line.
-        try rewrite (Z.eqb_sym 4%Z). try rewrite (String.eqb_sym "vertex").
-        change 4%Z with (Z.of_nat 4). rewrite zlen_eqb.
-        destruct (Nat.eqb_spec (length (Fields line)) 4) as [E|E]; [|reflexivity].
-        destruct (Fields line) as [|f0 [|f1 [|f2 [|f3 [|f4 r]]]]]; try discriminate E.
-        cbn [obind idx Z.ltb Z.compare Z.to_nat nth_error andb tl].
-        try rewrite (String.eqb_sym "vertex" f0).
-        destruct (String.eqb f0 "vertex"); [|reflexivity].
-        cbn [slice_from zlen length Z.of_nat Pos.of_succ_nat Pos.succ Z.leb Z.compare Pos.compare Pos.compare_cont andb Z.to_nat Pos.to_nat Pos.iter_op Nat.add skipn].
-        change (Pos.to_nat 1) with 1%nat. cbn [skipn].
-        fold parseFloats_m. rewrite parseFloats_eq.
-        destruct (parse_floats pf [f1; f2; f3]) as [f|]; [|reflexivity].
-        cbn [err_nonnil]. unfold idx. cbn [Z.ltb Z.compare Z.to_nat].
-        change (Pos.to_nat 1) with 1%nat. change (Pos.to_nat 2) with 2%nat.
-        destruct f as [|a [|b [|c f']]]; reflexivity. }
+    2:{ intros i line v. unfold body, is_vertex_line.
+        destruct (Fields line) as [|f0 [|f1 [|f2 [|f3 [|f4 r]]]]]; decide_zlen; go_cbn;
+          rewrite ?(String.eqb_sym "vertex"); try reflexivity;
+          try (destruct (String.eqb f0 "vertex"); go_cbn; try reflexivity);
+          rewrite ?PF;
+          try (destruct (parse_floats pf [f1; f2; f3]) as [f|]; go_cbn; [|reflexivity];
+               destruct f as [|a [|b [|c f']]]; go_cbn; reflexivity). }
     unfold tri, vec.
     match goal with |- context [scan_lines pf ?l ?n] => destruct (scan_lines pf l n) as [| |v] end; [reflexivity | reflexivity |].
-    rewrite rem3. unfold tri, vec. destruct (_ mod 3 =? 0)%nat; cbn [negb]; [|reflexivity].
+    rewrite ?(Z.eqb_sym 0%Z). rewrite rem3. unfold tri, vec. destruct (_ mod 3 =? 0)%nat; cbn [negb]; [|reflexivity].
     unfold for_upto. rewrite Z.sub_0_r.
     match goal with |- context [for_step _ _ _ ?b _ _] => set (gbody := b) end.
     change 0%Z with (Z.of_nat 0).
     rewrite (group_loop v gbody) with (fuelg := S (length v)); [| |lia|unfold zlen; rewrite Nat2Z.id, Nat.sub_0_r; apply Nat.le_refl].
-    2:{ intros i mesh. unfold gbody. rewrite Z.add_0_r.
-        replace (Z.of_nat i + 1)%Z with (Z.of_nat (i + 1)) by lia.
-        replace (Z.of_nat i + 2)%Z with (Z.of_nat (i + 2)) by lia.
-        rewrite !idx_nat. reflexivity. }
+    2:{ intros i mesh. unfold gbody.
+        repeat match goal with
+               | |- context [idx v ?e] =>
+                 lazymatch e with Z.of_nat _ => fail | _ => idtac end;
+                 first [ replace e with (Z.of_nat i) by lia
+                       | replace e with (Z.of_nat (i + 1)) by lia
+                       | replace e with (Z.of_nat (i + 2)) by lia ]
+               end.
+        rewrite !idx_nat. unfold tri, vec in *.
+        destruct (nth_error v i); [|reflexivity]. destruct (nth_error v (i + 1)); [|reflexivity].
+        destruct (nth_error v (i + 2)); reflexivity. }
     unfold tri, vec.
     match goal with |- context [group ?a ?b ?c ?d] => destruct (group a b c d) end; [reflexivity|].
     cbn [outcome_of]. destruct (snd (scan_w w)); reflexivity.
   Qed.
 
   (* ---- loadSTLBinary *)
-  Definition loadSTLBinary_m := gen_loadSTLBinary spec_float word fw fz widen32 (fun n : N => n) GoSem.binary_Read.
+  Definition loadSTLBinary_m : fw -> res (list tri * fw).
+  Proof using fz. by_name ltac:(pose_stl_io) gen_loadSTLBinary. Defined.
 
   (* decode_tris without fuel *)
   Fixpoint dec (n : nat) (data : list byte) : option (list tri) :=
@@ -346,78 +433,177 @@ Section Loaders.
   Lemma fw_rest_at w n : fw_rest (fw_at w (fw_pos w + n)) = skipn n (fw_rest w).
   Proof. unfold fw_rest, fw_at. cbn [fw_disk fw_pos]. apply skipn_add. Qed.
 
-  Lemma upd_mid {A} (done : list A) z zs v : upd (done ++ z :: zs) (zlen done) v = Some (done ++ v :: zs).
-  Proof.
-    unfold upd, zlen. destruct (Z.ltb_spec (Z.of_nat (length done)) 0); [lia|].
-    rewrite Nat2Z.id. apply upd_nat_app.
-  Qed.
+  Lemma dec_unfold m data : dec (S m) data =
+    match take 50 data with
+    | None => None
+    | Some (rec, rest) => match dec m rest with Some r => Some (decode_triangle rec :: r) | None => None end
+    end.
+  Proof. reflexivity. Qed.
 
-  Lemma bin_loop (z : tri) (g : Z -> tri -> list tri * fw -> ctl (list tri * fw) (res (list tri * fw))) :
-    (forall i x mesh w, g i x (mesh, w) =
-       let '(d, err, w') := GoSem.binary_Read LittleEndian STLTriangle_layout (zero_slots STLTriangle_layout) w in
-       if err_nonnil err then Return (Val ([], w') err)
-       else match upd mesh i (tri_of_slots d) with
-            | None => Return GoSem.Panic
-            | Some m => Next (m, w')
-            end) ->
-    forall n done w,
-    match range_loop g (zlen done) (repeat z n) (done ++ repeat z n, w) with
-    | Next (m, _) => exists ts, dec n (fw_rest w) = Some ts /\ m = done ++ ts
-    | Return r => dec n (fw_rest w) = None /\ outcome_of r = Err
+  (* one more record *)
+  Lemma dec_S n : forall data, dec (S n) data =
+    match dec n data with
+    | None => None
+    | Some ts => match take 50 (skipn (50 * n) data) with
+                 | None => None
+                 | Some (rec, _) => Some (ts ++ [decode_triangle rec])
+                 end
     end.
   Proof.
-    intros Hg. induction n as [|n IH]; intros done w; cbn [repeat range_loop dec].
-    - exists []. split; [reflexivity|]. reflexivity.
-    - rewrite Hg. unfold GoSem.binary_Read. rewrite STLTriangle_size.
-      destruct (Nat.leb_spec 50 (length (fw_rest w))) as [Hle|Hlt].
-      + cbn [err_nonnil]. rewrite upd_mid. rewrite (take_split 50 _ Hle).
-        rewrite triangle_decode by exact Hle.
-        replace (done ++ decode_triangle (firstn 50 (fw_rest w)) :: repeat z n)
-          with ((done ++ [decode_triangle (firstn 50 (fw_rest w))]) ++ repeat z n) by now rewrite <- app_assoc.
-        replace (zlen done + 1)%Z with (zlen (done ++ [decode_triangle (firstn 50 (fw_rest w))]))
-          by (rewrite zlen_app; reflexivity).
-        specialize (IH (done ++ [decode_triangle (firstn 50 (fw_rest w))]) (fw_at w (fw_pos w + 50))).
-        rewrite fw_rest_at in IH.
-        destruct (range_loop g _ _ _) as [[m w']|r].
-        * destruct IH as (ts & -> & ->). eexists. split; [reflexivity|]. now rewrite <- app_assoc.
-        * destruct IH as [-> Ho]. split; [reflexivity | exact Ho].
-      + rewrite (take_short 50 _ Hlt). destruct (fw_rest w); cbn [err_nonnil io_EOF io_ErrUnexpectedEOF]; split; reflexivity.
+    induction n as [|n IH]; intros data.
+    - rewrite Nat.mul_0_r. cbn [dec skipn app]. destruct (take 50 data) as [[rec rest]|]; reflexivity.
+    - rewrite (dec_unfold (S n)), (dec_unfold n).
+      destruct (take 50 data) as [[rec rest]|] eqn:Et; [|reflexivity].
+      rewrite IH. apply take_length in Et as [-> Hl].
+      replace (50 * S n)%nat with (50 + 50 * n)%nat by lia. rewrite skipn_add.
+      match goal with |- context [@skipn ?T 50 (rec ++ rest)] =>
+        assert (Es : @skipn T 50 (rec ++ rest) = rest) by (rewrite <- Hl; apply skipn_exact); rewrite Es
+      end.
+      destruct (dec n rest) as [ts|]; [|reflexivity].
+      match goal with |- context [take 50 ?x] => destruct (take 50 x) as [[r2 ?]|] end; reflexivity.
   Qed.
 
-  (* loadSTLBinary = decode of the model, reading from the current offset of the file *)
+  Lemma dec_none_mono k : forall n data, (k <= n)%nat -> dec k data = None -> dec n data = None.
+  Proof.
+    intros n data Hle. induction Hle as [|n Hle IH]; intros H; [exact H|].
+    rewrite dec_S, (IH H). reflexivity.
+  Qed.
+
+  (* loadSTLBinary = decode of the model, reading from the current offset of the file.  The record
+     loop is characterised by an invariant over (records read, mesh so far, file offset) found
+     in the loop state by type, so the proof does not depend on which other variables (an err
+     declared outside the loop, a record variable reused between iterations) the state carries,
+     nor on how the mesh is built: allocated with make([]T, n) and filled by index in a range
+     loop, or grown with append in a counted loop. *)
+  Section Binary.
+    Variables (data : list byte) (n : nat).
+    Notation T3 := (spec_float * spec_float * spec_float * (spec_float * spec_float * spec_float) *
+                    (spec_float * spec_float * spec_float))%type.
+    (* len0: the length of the mesh slice before the loop (n: filled by index, 0: grown by append) *)
+    Definition bin_inv (len0 : nat) (k : nat) (mesh : list T3) (wk : fw) : Prop :=
+      exists ts, dec k data = Some ts /\ firstn k mesh = ts /\
+                 ((len0 = n /\ length mesh = n) \/ (len0 = 0%nat /\ length mesh = k)) /\
+                 fw_rest wk = skipn (50 * k) data.
+    Definition bin_post {W} (r : res (list tri * W)) : Prop := dec n data = None /\ outcome_of r = Err.
+
+    Lemma bin_inv_read_upd k mesh wk : (k < n)%nat -> bin_inv n k mesh wk -> (50 <= length (fw_rest wk))%nat ->
+      forall cur, bin_inv n (S k)
+        (firstn k mesh ++ tri_of_slots (decode_struct LittleEndian STLTriangle_layout cur (fw_rest wk)) :: skipn (S k) mesh)
+        (fw_at wk (fw_pos wk + 50)).
+    Proof.
+      intros Hlt (ts & Hd & Hf & Hl & Hr) H50 cur.
+      assert (Hl' : length mesh = n) by (destruct Hl as [[_ Hl]|[E Hl]]; [exact Hl | lia]).
+      rewrite triangle_decode by exact H50.
+      exists (ts ++ [decode_triangle (firstn 50 (fw_rest wk))]). split; [|split; [|split]].
+      - rewrite dec_S, Hd, <- Hr, (take_split 50 _ H50). reflexivity.
+      - rewrite firstn_snoc_exact by (rewrite firstn_length; lia). now rewrite Hf.
+      - left. split; [reflexivity|]. rewrite app_length. cbn [length]. rewrite firstn_length, skipn_length. lia.
+      - rewrite fw_rest_at, Hr, <- skipn_add. f_equal. lia.
+    Qed.
+
+    Lemma bin_inv_read_app k mesh wk : (k < n)%nat -> bin_inv 0 k mesh wk -> (50 <= length (fw_rest wk))%nat ->
+      forall cur, bin_inv 0 (S k)
+        (mesh ++ [tri_of_slots (decode_struct LittleEndian STLTriangle_layout cur (fw_rest wk))])
+        (fw_at wk (fw_pos wk + 50)).
+    Proof.
+      intros Hlt (ts & Hd & Hf & Hl & Hr) H50 cur.
+      assert (Hl' : length mesh = k) by (destruct Hl as [[E Hl]|[_ Hl]]; [lia | exact Hl]).
+      rewrite triangle_decode by exact H50.
+      exists (ts ++ [decode_triangle (firstn 50 (fw_rest wk))]). split; [|split; [|split]].
+      - rewrite dec_S, Hd, <- Hr, (take_split 50 _ H50). reflexivity.
+      - rewrite firstn_all2 by (rewrite app_length; cbn [length]; lia). rewrite <- Hf, <- Hl', firstn_all. reflexivity.
+      - right. split; [reflexivity|]. rewrite app_length. cbn [length]. lia.
+      - rewrite fw_rest_at, Hr, <- skipn_add. f_equal. lia.
+    Qed.
+
+    Lemma bin_inv_short len0 k mesh wk : (k < n)%nat -> bin_inv len0 k mesh wk -> (length (fw_rest wk) < 50)%nat ->
+      dec n data = None.
+    Proof.
+      intros Hlt (ts & Hd & Hf & Hl & Hr) H50.
+      apply (dec_none_mono (S k)); [lia|]. rewrite dec_S, Hd, <- Hr, (take_short 50 _ H50). reflexivity.
+    Qed.
+
+    Lemma bin_inv_done len0 mesh wk : bin_inv len0 n mesh wk -> dec n data = Some mesh.
+    Proof.
+      intros (ts & Hd & Hf & Hl & _). rewrite Hd. f_equal.
+      destruct Hl as [[_ Hl]|[_ Hl]]; rewrite <- Hf, <- Hl, firstn_all; reflexivity.
+    Qed.
+  End Binary.
+
+  (* one iteration of the record loop: binary.Read of a record, then the element stored *)
+  Ltac bin_step data n k Hlt HI :=
+    unfold GoSem.binary_Read; rewrite STLTriangle_size;
+    match goal with |- context [fw_rest ?wk] =>
+      destruct (Nat.leb_spec 50 (length (fw_rest wk))) as [H50|H50];
+      [ cbn [err_nonnil]; rewrite ?upd_ok by (destruct HI as (? & _ & _ & [[? ?]|[? ?]] & _); lia);
+        cbn [fst snd];
+        match goal with |- context [decode_struct ?o ?ly ?cur ?bs] =>
+          first [ exact (bin_inv_read_upd data n k _ wk Hlt HI H50 cur)
+                | exact (bin_inv_read_app data n k _ wk Hlt HI H50 cur) ]
+        end
+      | pose proof (bin_inv_short data n _ k _ wk Hlt HI H50) as Hn; clear HI H50;
+        match goal with |- context [match fw_rest ?wk' with _ => _ end] => destruct (fw_rest wk') end;
+        cbn [err_nonnil io_EOF io_ErrUnexpectedEOF]; (split; [exact Hn | reflexivity]) ]
+    end.
+
   Lemma loadSTLBinary_eq w :
     outcome_of (loadSTLBinary_m w) = match decode (fw_rest w) with Some ts => Mesh ts | None => Err end.
   Proof.
-    unfold loadSTLBinary_m, gen_loadSTLBinary, decode.
+    unfold loadSTLBinary_m, gen_loadSTLBinary, decode. autounfold with iogen_helpers. cbv zeta.
     unfold GoSem.binary_Read at 1. rewrite STLHeader_size.
     destruct (Nat.leb_spec 84 (length (fw_rest w))) as [Hle|Hlt].
-    - cbn [err_nonnil]. rewrite (take_split 84 _ Hle).
-      rewrite header_decode by reflexivity.
-      unfold header_count. rewrite skipn_firstn_comm. change (84 - 80)%nat with 4%nat.
-      set (c := unle (firstn 4 (skipn 80 (fw_rest w)))).
-      unfold make_slice. destruct (Z.ltb_spec (Z.of_N c) 0) as [H|_]; [lia|].
-      replace (Z.to_nat (Z.of_N c)) with (N.to_nat c) by lia.
-      assert (Ec : c = N.of_nat (N.to_nat c)) by (symmetry; apply Nnat.N2Nat.id).
-      set (n := N.to_nat c) in *. clearbody n. rewrite Ec.
-      rewrite decode_tris_dec by (rewrite skipn_length; lia).
-      match goal with |- context [range_loop ?b 0%Z _ _] => set (body := b) end.
-      match goal with |- context [repeat ?z n] => pose proof (bin_loop z body) as L end.
-      specialize (L ltac:(intros i x mesh w0; unfold body;
-                          destruct (GoSem.binary_Read LittleEndian STLTriangle_layout (zero_slots STLTriangle_layout) w0) as [[d e] w'];
-                          destruct (err_nonnil e); reflexivity)).
-      specialize (L n [] (fw_at w (fw_pos w + 84))).
-      cbn [app] in L. change (zlen (@nil tri)) with 0%Z in L. rewrite fw_rest_at in L.
-      unfold tri, vec in *.
-      match goal with |- context [range_loop ?a ?b ?c ?d] => destruct (range_loop a b c d) as [[m w']|r] end.
-      + destruct L as (ts & -> & ->). reflexivity.
+    2:{ rewrite (take_short 84 _ Hlt). destruct (fw_rest w); reflexivity. }
+    cbn [err_nonnil]. rewrite (take_split 84 _ Hle).
+    rewrite header_decode by reflexivity.
+    unfold header_count. rewrite skipn_firstn_comm. change (84 - 80)%nat with 4%nat.
+    set (c := unle (firstn 4 (skipn 80 (fw_rest w)))).
+    (* the allocation, if there is one *)
+    try (unfold make_slice; destruct (Z.ltb_spec (Z.of_N c) 0) as [H|_]; [lia|];
+         replace (Z.to_nat (Z.of_N c)) with (N.to_nat c) by lia).
+    assert (Ec : c = N.of_nat (N.to_nat c)) by (symmetry; apply Nnat.N2Nat.id).
+    set (n := N.to_nat c) in *. clearbody n. rewrite Ec. rewrite ?nat_N_Z.
+    rewrite decode_tris_dec by (rewrite skipn_length; lia).
+    set (w1 := fw_at w (fw_pos w + 84)).
+    assert (Hr1 : fw_rest w1 = skipn 84 (fw_rest w)) by apply fw_rest_at.
+    rewrite <- Hr1. set (data := fw_rest w1) in *.
+    unfold tri, vec in *.
+    first
+    [ (* for i := range mesh *)
+      match goal with |- context [range_loop ?b 0%Z (repeat ?z n) ?s0] =>
+        let S := type of s0 in
+        let pw := proj_of fw S in
+        let pm := proj_of (list (spec_float * spec_float * spec_float * (spec_float * spec_float * spec_float) * (spec_float * spec_float * spec_float))) S in
+        pose proof (range_loop_inv b (fun k st => bin_inv data n (length (pm s0)) k (pm st) (pw st)) (bin_post data n) (repeat z n)) as L;
+        cbv beta in L; specialize (fun Hstep Hinit => L Hstep s0 Hinit); cbn [fst snd] in L; rewrite !repeat_length in L
+      end;
+      match type of L with ?Pstep -> ?Pinit -> _ => assert (Hstep : Pstep); [|assert (Hinit : Pinit); [|specialize (L Hstep Hinit)]] end;
+      [ intros k x st Hk HI; pose proof (nth_error_lt _ _ _ Hk) as Hlt; rewrite repeat_length in Hlt;
+        destruct_state st; cbn [fst snd] in *; bin_step data n k Hlt HI
+      | | ]
+    | (* for i := 0; i < n; i++ *)
+      match goal with |- context [for_upto 0%Z (Z.of_nat n) 1%Z ?b ?s0] =>
+        let S := type of s0 in
+        let pw := proj_of fw S in
+        let pm := proj_of (list (spec_float * spec_float * spec_float * (spec_float * spec_float * spec_float) * (spec_float * spec_float * spec_float))) S in
+        pose proof (for_upto_inv01 n b (fun k st => bin_inv data n (length (pm s0)) k (pm st) (pw st)) (bin_post data n)) as L;
+        cbv beta in L; specialize (fun Hstep Hinit => L Hstep s0 Hinit); cbn [fst snd length] in L; rewrite ?repeat_length in L
+      end;
+      match type of L with ?Pstep -> ?Pinit -> _ => assert (Hstep : Pstep); [|assert (Hinit : Pinit); [|specialize (L Hstep Hinit)]] end;
+      [ intros k st Hlt HI; destruct_state st; cbn [fst snd] in *;
+        bin_step data n k Hlt HI
+      | | ] ].
+    - (* the invariant holds before the loop *)
+      exists []. rewrite Nat.mul_0_r. cbn [fst snd firstn dec skipn length]. rewrite ?repeat_length.
+      repeat split. first [ left; split; reflexivity | right; split; reflexivity ].
+    - (* after the loop *)
+      match type of L with match ?t with _ => _ end => destruct t as [st|r] end.
+      + destruct_state st. cbn [fst snd] in L. rewrite (bin_inv_done _ _ _ _ _ L). reflexivity.
       + destruct L as [-> Ho]. exact Ho.
-    - rewrite (take_short 84 _ Hlt). destruct (fw_rest w); reflexivity.
   Qed.
 
   (* ---- LoadSTL *)
-  Definition LoadSTL_m :=
-    gen_LoadSTL spec_float word fw Z fz widen32 (fun n : N => n) GoSem.os_Open GoSem.file_Stat GoSem.file_Seek
-      GoSem.FileInfo_Size GoSem.binary_Read scan_w Fields ParseFloat.
+  Definition LoadSTL_m : string -> fw -> res (list tri * fw).
+  Proof using scan Fields pf fz. by_name ltac:(pose_loaders) gen_LoadSTL. Defined.
 
   Lemma bytes_ok_firstn n : forall l, bytes_ok l -> bytes_ok (firstn n l).
   Proof. induction n as [|n IH]; intros [|x l] H; cbn [firstn]; try constructor; inversion H; subst; auto. apply IH; assumption. Qed.
@@ -433,16 +619,37 @@ Section Loaders.
     outcome_of (match r with GoSem.Panic => GoSem.Panic | Val (a, w) e => Val (a, w) e end) = outcome_of r.
   Proof. destruct r as [[a w] e|]; reflexivity. Qed.
 
-  (* LoadSTL = load of the model (repaired version) for every file that can be opened *)
+  (* tests on an error value that is known: err != nil, err == io.EOF, ... in whatever order and nesting *)
+  Ltac simpl_errs :=
+    cbn [err_nonnil err_eqb goerr_eqb orb andb negb io_EOF io_ErrUnexpectedEOF new_error N.eqb fst snd].
+
+  (* int64 / uint32 arithmetic that stays inside its type: the wrap-arounds disappear; a
+     wrap-around that can happen (a product formed at uint32, say) stays and blocks the proof *)
+  Ltac wraps_away :=
+    repeat match goal with
+           | |- context [wraps 64 ?x] =>
+             rewrite (wraps_small 64 x) by (change (2 ^ (64 - 1))%Z with 9223372036854775808%Z; lia)
+           | |- context [wrapu 64 ?x] =>
+             rewrite (wrapu_small 64 x) by (change (2 ^ 64)%Z with 18446744073709551616%Z; lia)
+           | |- context [wrapu 32 ?x] =>
+             rewrite (wrapu_small 32 x) by (change (2 ^ 32)%Z with 4294967296%Z; lia)
+           end.
+
+  (* LoadSTL = load of the model (repaired version) for every file that can be opened.  The proof
+     runs the generated function on the two kinds of file (at least / fewer than 84 bytes) and
+     decides every test on the error value and on the sizes, so it does not depend on how the
+     tests are nested, on which err variable is assigned, or on how the size formula is spelled
+     as long as it cannot wrap around. *)
   Lemma LoadSTL_eq path w : fw_open_err w = None -> bytes_ok (fw_disk w) ->
     outcome_of (LoadSTL_m path w) = load pf Repaired (file_at (fw_at w 0)).
   Proof.
-    intros Ho Hb. unfold LoadSTL_m, gen_LoadSTL, load, GoSem.os_Open, GoSem.file_Stat. rewrite Ho. cbn [err_nonnil].
+    intros Ho Hb. unfold LoadSTL_m, gen_LoadSTL. autounfold with iogen_helpers. cbv zeta.
+    unfold load, GoSem.os_Open, GoSem.file_Stat. rewrite Ho. simpl_errs.
     cbn [file_at f_bytes fw_at fw_disk].
     unfold GoSem.binary_Read at 1. rewrite STLHeader_size.
     change (fw_rest (fw_at w 0)) with (fw_disk w).
     destruct (Nat.leb_spec 84 (length (fw_disk w))) as [Hle|Hlt].
-    - cbn [err_nonnil]. rewrite (take_split 84 _ Hle). rewrite header_decode by reflexivity.
+    - simpl_errs. rewrite (take_split 84 _ Hle). rewrite header_decode by reflexivity.
       unfold header_count. rewrite skipn_firstn_comm. change (84 - 80)%nat with 4%nat.
       set (c := unle (firstn 4 (skipn 80 (fw_disk w)))).
       assert (Hc : c < 2 ^ 32).
@@ -451,21 +658,18 @@ Section Loaders.
         change (2 ^ 32) with (256 ^ 4). apply N.pow_le_mono_r; [discriminate|].
         rewrite firstn_length. lia. }
       change (2 ^ 32) with 4294967296 in Hc.
-      rewrite (wraps_small 64 (Z.of_N c)) by (change (2 ^ (64 - 1))%Z with 9223372036854775808%Z; lia).
-      rewrite (wraps_small 64 (Z.of_N c * 50)) by (change (2 ^ (64 - 1))%Z with 9223372036854775808%Z; lia).
-      rewrite (wraps_small 64 (Z.of_N c * 50 + 84)) by (change (2 ^ (64 - 1))%Z with 9223372036854775808%Z; lia).
-      unfold GoSem.file_Seek. cbn [Z.ltb Z.compare err_nonnil Z.to_nat].
+      wraps_away.
+      unfold GoSem.file_Seek. cbn [Z.ltb Z.compare Z.to_nat]. simpl_errs.
       unfold GoSem.FileInfo_Size. rewrite nlen_length.
-      replace (zlen (fw_disk w) =? Z.of_N c * 50 + 84)%Z with (N.of_nat (length (fw_disk w)) =? c * 50 + 84).
-      2:{ unfold zlen. destruct (N.eqb_spec (N.of_nat (length (fw_disk w))) (c * 50 + 84)) as [E|E];
-          symmetry; [apply Z.eqb_eq | apply Z.eqb_neq]; lia. }
-      destruct (_ =? c * 50 + 84).
-      + rewrite outcome_eta. apply loadSTLBinary_eq.
-      + rewrite outcome_eta. apply loadSTLAscii_eq.
+      match goal with |- context [(?a =? ?b)%Z] => destruct (Z.eqb_spec a b) as [Ez|Ez] end;
+        match goal with |- context [N.eqb ?a ?b] => destruct (N.eqb_spec a b) as [En|En] end;
+        try (exfalso; unfold zlen, Stl.byte, GoSem.byte in *; lia);
+        rewrite ?outcome_eta; [apply loadSTLBinary_eq | apply loadSTLAscii_eq].
     - rewrite (take_short 84 _ Hlt).
-      destruct (fw_disk w) eqn:Ed; cbn [err_nonnil io_EOF io_ErrUnexpectedEOF err_eqb goerr_eqb orb];
-        unfold GoSem.file_Seek; cbn [Z.ltb Z.compare err_nonnil Z.to_nat];
-        rewrite outcome_eta, loadSTLAscii_eq; unfold file_at, scan_w, fw_rest, fw_at; cbn [fw_disk fw_pos skipn]; rewrite ?Ed; reflexivity.
+      destruct (fw_disk w) eqn:Ed; simpl_errs;
+        unfold GoSem.file_Seek; cbn [Z.ltb Z.compare Z.to_nat]; simpl_errs;
+        rewrite ?outcome_eta; (etransitivity; [apply loadSTLAscii_eq|]);
+        unfold file_at, scan_w, fw_rest, fw_at; cbn [fw_disk fw_pos skipn]; rewrite ?Ed; reflexivity.
   Qed.
 
   Lemma LoadSTL_open_error path w e : fw_open_err w = Some e -> outcome_of (LoadSTL_m path w) = Err.
@@ -516,86 +720,128 @@ Qed.
 Lemma nth_set_slot_last n v : nth n (set_slot (repeat 0 (S n)) n v) 0 = v.
 Proof. rewrite set_slot_repeat_last, app_nth2; rewrite repeat_length; [now rewrite Nat.sub_diag | lia]. Qed.
 
+Lemma bufio_Write_spec cap data w e w' : wf w -> GoSem.bufio_Write cap data w = (e, w') ->
+  e = None /\ wf w' /\ content w' = content w ++ data.
+Proof.
+  intros Hw E. destruct (bufio_Write_ok cap data w Hw) as (He & Hw' & Hc). rewrite E in He, Hw', Hc. auto.
+Qed.
+
+Lemma bufio_Flush_spec w e w' : wf w -> GoSem.bufio_Flush w = (e, w') ->
+  e = None /\ wf w' /\ fw_disk w' = content w /\ fw_buf w' = [].
+Proof.
+  intros Hw E. destruct (bufio_Flush_ok w Hw) as (He & Hw' & Hd & Hb). rewrite E in He, Hw', Hd, Hb. auto.
+Qed.
+
+Lemma concat_firstn_S {A} (bs : list (list A)) k b : nth_error bs k = Some b ->
+  concat (firstn (S k) bs) = concat (firstn k bs) ++ b.
+Proof. intros H. rewrite (nth_error_firstn_S _ _ _ H), concat_app. cbn [concat]. now rewrite app_nil_r. Qed.
+
+(* a record variable of the generated code is known by the length of its slot list *)
+Ltac explode_records :=
+  repeat match goal with
+         | H : length ?d = 13%nat |- _ =>
+           is_var d; do 13 (destruct d as [|? d]; [discriminate H|]); destruct d; [clear H|discriminate H]
+         end.
+
 Section Writers.
   (* any float64 arithmetic on spec_float values; the stored words are narrow32 of the values *)
   Variable fz : Z -> spec_float.
   Variables fadd fsub fmul fdiv : spec_float -> spec_float -> spec_float.
   Variable fsqrt : spec_float -> spec_float.
-  Definition nrm : tri -> vec := gen_Triangle3_Normal spec_float fz fadd fsub fmul fdiv fsqrt.
-  Let cap := bufio_default_size.
+  Definition nrm : tri -> vec.
+  Proof using fz fadd fsub fmul fdiv fsqrt. by_name ltac:(pose_stl_io) gen_Triangle3_Normal. Defined.
+  Notation cap := bufio_default_size.
 
-  Definition SaveSTL_m :=
-    gen_SaveSTL spec_float word fw fz fadd fsub fmul fdiv fsqrt narrow32 (fun n : N => n)
-      GoSem.os_Create (GoSem.binary_Write_bufio cap) GoSem.bufio_Flush.
+  Definition SaveSTL_m : string -> list tri -> fw -> res fw.
+  Proof using fz fadd fsub fmul fdiv fsqrt. by_name ltac:(pose_stl_io) gen_SaveSTL. Defined.
 
-  (* the record a loop iteration builds: 12 words from the triangle, the attribute slot untouched *)
-  Lemma record_bytes (t : tri) (d : list N) : length d = 13%nat ->
-    forall d', d' = tri_words nrm t ++ skipn 12 d ->
-    length d' = 13%nat /\ encode_struct LittleEndian STLTriangle_layout d' = encode_triangle nrm t.
+  (* what a loop iteration hands to binary.Write: 13 slots whose first 12 are the words of the
+     triangle (Normal() through float32, then the nine coordinates through float32, in this
+     order), whatever the attribute slot holds - and however the record was filled in (in
+     place, by a helper, in another order of the twelve assignments) *)
+  Lemma record_bytes (t : tri) (d' : list N) : length d' = 13%nat -> firstn 12 d' = tri_words nrm t ->
+    encode_struct LittleEndian STLTriangle_layout d' = encode_triangle nrm t.
   Proof.
-    intros H d' ->. do 13 (destruct d as [|? d]; [discriminate H|]). destruct d; [|discriminate H].
-    cbn [skipn]. split; [rewrite app_length, tri_words_length; reflexivity|].
-    apply triangle_bytes. apply tri_words_length.
+    intros Hl Hf. rewrite <- (firstn_skipn 12 d'), Hf.
+    assert (E : exists x, skipn 12 d' = [x]).
+    { do 13 (destruct d' as [|? d']; [discriminate Hl|]). destruct d'; [|discriminate Hl]. cbn [skipn]. eauto. }
+    destruct E as [x ->]. apply triangle_bytes, tri_words_length.
   Qed.
 
-  Lemma save_loop {R} (g : Z -> tri -> list N * fw -> ctl (list N * fw) (res R)) :
-    (forall i t d w, length d = 13%nat -> exists d', length d' = 13%nat /\
-       g i t (d, w) = Next (d', snd (GoSem.bufio_Write cap (encode_triangle nrm t) w))) ->
-    forall ts i d w, length d = 13%nat -> wf w ->
-    exists d' w', range_loop g i ts (d, w) = Next (d', w') /\ length d' = 13%nat /\ wf w' /\
-                  content w' = content w ++ flat_map (encode_triangle nrm) ts.
-  Proof.
-    intros Hg. induction ts as [|t ts IH]; intros i d w Hd Hw; cbn [range_loop flat_map].
-    - exists d, w. rewrite app_nil_r. auto.
-    - destruct (Hg i t d w Hd) as (d1 & Hd1 & ->).
-      destruct (bufio_Write_ok cap (encode_triangle nrm t) w Hw) as (_ & Hw1 & Hc1).
-      destruct (IH (i + 1)%Z d1 _ Hd1 Hw1) as (d' & w' & -> & Hd' & Hw' & Hc').
-      exists d', w'. repeat split; auto. rewrite Hc', Hc1, app_assoc. reflexivity.
-  Qed.
+  Lemma write_record (t : tri) (d' : list N) w e w2 : wf w -> length d' = 13%nat -> firstn 12 d' = tri_words nrm t ->
+    GoSem.bufio_Write cap (encode_struct LittleEndian STLTriangle_layout d') w = (e, w2) ->
+    e = None /\ wf w2 /\ content w2 = content w ++ encode_triangle nrm t.
+  Proof. intros Hw Hl Hf E. rewrite (record_bytes t d' Hl Hf) in E. exact (bufio_Write_spec _ _ _ _ _ Hw E). Qed.
 
-  Ltac record_step d t Hd :=
-    do 13 (destruct d as [|? d]; [discriminate Hd|]); destruct d; [|discriminate Hd];
-    destruct t as [[[[a1 a2] a3] [[b1 b2] b3]] [[c1 c2] c3]].
+  Lemma write_header (d : list N) w e w2 : wf w -> length d = 81%nat ->
+    GoSem.bufio_Write cap (encode_struct LittleEndian STLHeader_layout d) w = (e, w2) ->
+    e = None /\ wf w2 /\ content w2 = content w ++ encode_header (nth 80 d 0).
+  Proof. intros Hw Hl E. rewrite (header_bytes d Hl) in E. exact (bufio_Write_spec _ _ _ _ _ Hw E). Qed.
+
+  (* one iteration of the record loop of SaveSTL / writeSTL: fill the record, binary.Write it to
+     the bufio.Writer.  Leaves the goal after the write, with the facts about the new world. *)
+  Ltac record_write_step_ t Hwf :=
+    unfold GoSem.binary_Write_bufio;
+    match goal with |- context [GoSem.bufio_Write cap (encode_struct LittleEndian STLTriangle_layout ?x) ?w] =>
+      let e := fresh "e" in let w2 := fresh "w" in let E := fresh "E" in
+      destruct (GoSem.bufio_Write cap (encode_struct LittleEndian STLTriangle_layout x) w) as [e w2] eqn:E;
+      apply (write_record t) in E;
+      [ destruct E as (-> & ? & ?); cbn [err_nonnil]
+      | exact Hwf
+      | try reflexivity; rewrite ?set_slot_length; assumption
+      | explode_records; destruct t as [[[[? ?] ?] [[? ?] ?]] [[? ?] ?]]; reflexivity ]
+    end.
+  Tactic Notation "record_write_step" constr(t) constr(Hwf) := record_write_step_ t Hwf.
 
   (* SaveSTL: header with uint32(len(mesh)), then every record, then Flush: the file is [save] *)
   Lemma SaveSTL_eq path mesh w : fw_open_err w = None ->
     exists w', SaveSTL_m path mesh w = Val w' None /\ fw_disk w' = save nrm mesh /\ fw_buf w' = [].
   Proof.
-    intros Ho. unfold SaveSTL_m, gen_SaveSTL, GoSem.os_Create. rewrite Ho. cbn [err_nonnil].
+    intros Ho. unfold SaveSTL_m, gen_SaveSTL. autounfold with iogen_helpers. cbv zeta.
+    unfold GoSem.os_Create. rewrite Ho. cbn [err_nonnil].
     set (w0 := {| fw_disk := []; fw_pos := 0; fw_buf := []; fw_open_err := None |}).
     assert (Hw0 : wf w0) by reflexivity.
+    (* the header *)
     unfold GoSem.binary_Write_bufio at 1.
-    rewrite header_bytes by (rewrite set_slot_length; reflexivity).
-    change (zero_slots STLHeader_layout) with (repeat 0 81). rewrite nth_set_slot_last, count_word.
-    destruct (bufio_Write_ok cap (encode_header (nlen mesh mod 2 ^ 32)) w0 Hw0) as (He & Hw1 & Hc1).
-    destruct (GoSem.bufio_Write cap (encode_header (nlen mesh mod 2 ^ 32)) w0) as [e1 w1].
-    cbn [fst snd] in He, Hw1, Hc1. subst e1. cbn [err_nonnil].
-    match goal with |- context [range_loop ?b 0%Z mesh _] => set (body := b) end.
-    destruct (save_loop body) with (ts := mesh) (i := 0%Z) (d := zero_slots STLTriangle_layout) (w := w1)
-      as (d' & w' & El & _ & Hw' & Hc'); [|reflexivity|exact Hw1|
-      match goal with |- context [range_loop ?b 0%Z mesh ?s] => set (loop := range_loop b 0%Z mesh s) end;
-      assert (El' : loop = Next (d', w')) by exact El; rewrite El'; clear El' loop].
-    { intros i t d w2 Hd.
-      destruct (record_bytes t d Hd _ eq_refl) as [Hl Hb].
-      exists (tri_words nrm t ++ skipn 12 d). split; [exact Hl|].
-      unfold body, GoSem.binary_Write_bufio.
-      match goal with |- context [encode_struct LittleEndian STLTriangle_layout ?x] =>
-        replace x with (tri_words nrm t ++ skipn 12 d) by (record_step d t Hd; reflexivity) end.
-      rewrite Hb.
-      destruct (GoSem.bufio_Write cap (encode_triangle nrm t) w2) as [e w3] eqn:E.
-      assert (e = None) as ->.
-      { unfold GoSem.bufio_Write, GoSem.file_Write in E. destruct (_ <=? cap)%nat; inversion E; reflexivity. }
-      reflexivity. }
-    destruct (bufio_Flush_ok w' Hw') as (He & _ & Hd' & Hb').
-    destruct (GoSem.bufio_Flush w') as [e2 w2]. cbn [fst snd] in He, Hd', Hb'. subst e2.
-    exists w2. split; [reflexivity|]. split; [|exact Hb'].
-    rewrite Hd', Hc', Hc1. reflexivity.
+    match goal with |- context [GoSem.bufio_Write cap (encode_struct LittleEndian STLHeader_layout ?d) w0] =>
+      destruct (GoSem.bufio_Write cap (encode_struct LittleEndian STLHeader_layout d) w0) as [e1 w1] eqn:E1;
+      apply write_header in E1; [destruct E1 as (-> & Hw1 & Hc1) | exact Hw0 | rewrite ?set_slot_length; reflexivity]
+    end.
+    change (zero_slots STLHeader_layout) with (repeat 0 81) in Hc1. rewrite nth_set_slot_last, count_word in Hc1.
+    cbn [err_nonnil].
+    (* the records *)
+    match goal with |- context [range_loop ?b 0%Z mesh ?s0] =>
+      let S := type of s0 in
+      let pw := proj_of fw S in
+      let Id := match constr:(Set) with
+                | _ => let pd := proj_of (list N) S in constr:(fun st : S => length (pd st) = 13%nat)
+                | _ => constr:(fun st : S => True)
+                end in
+      pose proof (range_loop_inv b
+        (fun k st => wf (pw st) /\ content (pw st) = content w1 ++ flat_map (encode_triangle nrm) (firstn k mesh) /\ Id st)
+        (fun _ => False) mesh) as L;
+      cbv beta in L; specialize (fun Hstep Hinit => L Hstep s0 Hinit)
+    end.
+    match type of L with ?Pstep -> ?Pinit -> _ => assert (Hstep : Pstep); [|assert (Hinit : Pinit); [|specialize (L Hstep Hinit)]] end.
+    - intros k t st Hk HI. destruct_state st. cbn [fst snd] in *. unfold tri, vec in *. destruct HI as (Hwf & Hc & Hd).
+      record_write_step t Hwf.
+      cbn [fst snd]. split; [assumption|]. split.
+      + match goal with Hw : content ?w' = _ ++ encode_triangle nrm t |- content ?w' = _ => rewrite Hw end. rewrite Hc.
+        rewrite (nth_error_firstn_S _ _ _ Hk), flat_map_app. cbn [flat_map]. rewrite app_nil_r. symmetry. apply app_assoc.
+      + first [exact I | rewrite ?set_slot_length; assumption].
+    - cbn [fst snd firstn flat_map]. rewrite app_nil_r. repeat split; try exact Hw1; try reflexivity.
+    - match type of L with match ?t with _ => _ end => destruct t as [st|r] end; [|contradiction].
+      destruct_state st. cbn [fst snd] in L. destruct L as (Hwf & Hc & _). rewrite firstn_all in Hc.
+      match goal with |- context [GoSem.bufio_Flush ?w] =>
+        destruct (GoSem.bufio_Flush w) as [e2 w2] eqn:E2; apply bufio_Flush_spec in E2; [destruct E2 as (-> & _ & Hd2 & Hb2) | exact Hwf]
+      end.
+      exists w2. split; [reflexivity|]. split; [|exact Hb2].
+      rewrite Hd2, Hc, Hc1. reflexivity.
   Qed.
 
   (* ---- writeSTL (the goroutine behind render.ToSTL); the channel delivers [batches] *)
-  Definition writeSTL_m :=
-    gen_writeSTL spec_float word fw fz fadd fsub fmul fdiv fsqrt narrow32 (fun n : N => n)
-      GoSem.os_Create GoSem.file_Seek GoSem.binary_Write_file (GoSem.binary_Write_bufio cap) GoSem.bufio_Flush.
+  Definition writeSTL_m : string -> list (list tri) -> fw -> res fw.
+  Proof using fz fadd fsub fmul fdiv fsqrt. by_name ltac:(pose_stl_io) gen_writeSTL. Defined.
 
   Definition count_after {A} (c : Z) (ts : list A) : Z := fold_left (fun c _ => wrapu 32 (c + 1)) ts c.
 
@@ -608,86 +854,94 @@ Section Writers.
       unfold wrapu. rewrite Z.add_mod_idemp_l by discriminate. f_equal. unfold zlen. cbn [length]. lia.
   Qed.
 
-  Lemma stream_inner {R} (g : Z -> tri -> list N * Z * fw -> ctl (list N * Z * fw) (res R)) :
-    (forall i t d c w, length d = 13%nat -> exists d', length d' = 13%nat /\
-       g i t (d, c, w) = Next (d', wrapu 32 (c + 1), snd (GoSem.bufio_Write cap (encode_triangle nrm t) w))) ->
-    forall ts i d c w, length d = 13%nat -> wf w ->
-    exists d' w', range_loop g i ts (d, c, w) = Next (d', count_after c ts, w') /\ length d' = 13%nat /\ wf w' /\
-                  content w' = content w ++ flat_map (encode_triangle nrm) ts.
-  Proof.
-    intros Hg. induction ts as [|t ts IH]; intros i d c w Hd Hw; cbn [range_loop flat_map].
-    - exists d, w. rewrite app_nil_r. auto.
-    - destruct (Hg i t d c w Hd) as (d1 & Hd1 & ->).
-      destruct (bufio_Write_ok cap (encode_triangle nrm t) w Hw) as (_ & Hw1 & Hc1).
-      destruct (IH (i + 1)%Z d1 (wrapu 32 (c + 1)) _ Hd1 Hw1) as (d' & w' & -> & Hd' & Hw' & Hc').
-      exists d', w'. repeat split; auto. rewrite Hc', Hc1, app_assoc. reflexivity.
-  Qed.
-
-  Lemma stream_outer {R} (g : Z -> list tri -> list N * Z * fw -> ctl (list N * Z * fw) (res R)) :
-    (forall i ts d c w, length d = 13%nat -> wf w -> exists d' w',
-       g i ts (d, c, w) = Next (d', count_after c ts, w') /\ length d' = 13%nat /\ wf w' /\
-       content w' = content w ++ flat_map (encode_triangle nrm) ts) ->
-    forall bs i d c w, length d = 13%nat -> wf w ->
-    exists d' w', range_loop g i bs (d, c, w) = Next (d', count_after c (concat bs), w') /\ wf w' /\
-                  content w' = content w ++ flat_map (encode_triangle nrm) (concat bs).
-  Proof.
-    intros Hg. induction bs as [|b bs IH]; intros i d c w Hd Hw; cbn [range_loop concat].
-    - exists d, w. cbn [flat_map]. rewrite app_nil_r. auto.
-    - destruct (Hg i b d c w Hd Hw) as (d1 & w1 & -> & Hd1 & Hw1 & Hc1).
-      destruct (IH (i + 1)%Z d1 (count_after c b) w1 Hd1 Hw1) as (d' & w' & -> & Hw' & Hc').
-      exists d', w'. split; [|split; [exact Hw'|]].
-      + unfold count_after. now rewrite fold_left_app.
-      + rewrite Hc', Hc1, flat_map_app, app_assoc. reflexivity.
-  Qed.
-
-  Lemma bufio_Write_noerr data w : fst (GoSem.bufio_Write cap data w) = None.
-  Proof. unfold GoSem.bufio_Write, GoSem.file_Write. destruct (_ <=? cap)%nat; reflexivity. Qed.
+  Lemma count_after_app {A} c (a b : list A) : count_after c (a ++ b) = count_after (count_after c a) b.
+  Proof. unfold count_after. apply fold_left_app. Qed.
 
   (* writeSTL: empty header, records through the bufio.Writer, Flush, Seek(0,0), header with the
      uint32 counter: the file is [stream_save] = [save] of all triangles received *)
   Lemma writeSTL_eq path batches w : fw_open_err w = None ->
     exists w', writeSTL_m path batches w = Val w' None /\ fw_disk w' = stream_save nrm cap batches.
   Proof.
-    intros Ho. unfold writeSTL_m, gen_writeSTL, GoSem.os_Create. rewrite Ho. cbn [err_nonnil].
+    intros Ho. unfold writeSTL_m, gen_writeSTL. autounfold with iogen_helpers. cbv zeta.
+    unfold GoSem.os_Create. rewrite Ho. cbn [err_nonnil].
     set (w0 := {| fw_disk := []; fw_pos := 0; fw_buf := []; fw_open_err := None |}).
     assert (Hw0 : wf w0) by reflexivity.
-    unfold GoSem.binary_Write_bufio at 1. rewrite header_bytes by reflexivity.
-    change (nth 80 (zero_slots STLHeader_layout) 0) with 0.
-    destruct (bufio_Write_ok cap (encode_header 0) w0 Hw0) as (He & Hw1 & Hc1).
-    destruct (GoSem.bufio_Write cap (encode_header 0) w0) as [e1 w1].
-    cbn [fst snd] in He, Hw1, Hc1. subst e1. cbn [err_nonnil].
-    match goal with |- context [range_loop ?b 0%Z batches _] => set (outer := b) end.
-    destruct (stream_outer outer) with (bs := batches) (i := 0%Z) (d := zero_slots STLTriangle_layout) (c := 0%Z) (w := w1)
-      as (d' & w' & El & Hw' & Hc'); [|reflexivity|exact Hw1|
-      match goal with |- context [range_loop ?b 0%Z batches ?s] => set (loop := range_loop b 0%Z batches s) end;
-      assert (El' : loop = Next (d', count_after 0 (concat batches), w')) by exact El; rewrite El'; clear El' loop].
-    { intros i ts d c w2 Hd Hw2. unfold outer.
-      match goal with |- context [range_loop ?b 0%Z ts _] => set (inner := b) end.
-      destruct (stream_inner inner) with (ts := ts) (i := 0%Z) (d := d) (c := c) (w := w2)
-        as (d2 & w3 & El & Hd2 & Hw3 & Hc3); [|exact Hd|exact Hw2|].
-      { intros j t d3 cc w4 Hd3.
-        destruct (record_bytes t d3 Hd3 _ eq_refl) as [Hl Hb].
-        exists (tri_words nrm t ++ skipn 12 d3). split; [exact Hl|].
-        unfold inner, GoSem.binary_Write_bufio.
-        match goal with |- context [encode_struct LittleEndian STLTriangle_layout ?x] =>
-          replace x with (tri_words nrm t ++ skipn 12 d3) by (record_step d3 t Hd3; reflexivity) end.
-        rewrite Hb. pose proof (bufio_Write_noerr (encode_triangle nrm t) w4) as E.
-        destruct (GoSem.bufio_Write cap (encode_triangle nrm t) w4) as [e w5]. cbn [fst] in E. subst e. reflexivity. }
-      exists d2, w3.
-      match goal with |- context [range_loop ?b 0%Z ts ?s] => set (loop := range_loop b 0%Z ts s) end.
-      assert (El' : loop = Next (d2, count_after c ts, w3)) by exact El. rewrite El'. auto. }
-    destruct (bufio_Flush_ok w' Hw') as (He & Hw2 & Hd2 & Hb2).
-    destruct (GoSem.bufio_Flush w') as [e2 w2]. cbn [fst snd] in He, Hw2, Hd2, Hb2. subst e2.
-    unfold GoSem.file_Seek. cbn [Z.ltb Z.compare err_nonnil Z.to_nat].
-    unfold GoSem.binary_Write_file. rewrite header_bytes by (rewrite set_slot_length; reflexivity).
-    change (zero_slots STLHeader_layout) with (repeat 0 81). rewrite nth_set_slot_last.
-    unfold GoSem.file_Write. cbn [fw_at fw_pos fw_disk err_nonnil firstn app Nat.add].
-    eexists. split; [reflexivity|]. cbn [fw_disk].
-    rewrite stream_eq_batch. unfold save.
-    rewrite count_after_mod by (split; [lia | reflexivity]). rewrite Z.add_0_l.
-    fold (wrapu 32 (zlen (concat batches))). rewrite count_word.
-    rewrite Hd2, Hc', Hc1. cbn [content w0 fw_disk fw_buf app].
-    rewrite header_length, <- (header_length 0), skipn_exact. reflexivity.
+    (* the empty header *)
+    unfold GoSem.binary_Write_bufio at 1.
+    match goal with |- context [GoSem.bufio_Write cap (encode_struct LittleEndian STLHeader_layout ?d) w0] =>
+      destruct (GoSem.bufio_Write cap (encode_struct LittleEndian STLHeader_layout d) w0) as [e1 w1] eqn:E1;
+      apply write_header in E1; [destruct E1 as (-> & Hw1 & Hc1) | exact Hw0 | rewrite ?set_slot_length; reflexivity]
+    end.
+    change (nth 80 (zero_slots STLHeader_layout) 0) with 0 in Hc1.
+    cbn [err_nonnil].
+    (* the batches *)
+    match goal with |- context [range_loop ?b 0%Z batches ?s0] =>
+      let S := type of s0 in
+      let pw := proj_of fw S in
+      let pc := proj_of Z S in
+      let Id := match constr:(Set) with
+                | _ => let pd := proj_of (list N) S in constr:(fun st : S => length (pd st) = 13%nat)
+                | _ => constr:(fun st : S => True)
+                end in
+      pose proof (range_loop_inv b
+        (fun k st => wf (pw st) /\
+                     content (pw st) = content w1 ++ flat_map (encode_triangle nrm) (concat (firstn k batches)) /\
+                     pc st = count_after 0 (concat (firstn k batches)) /\ Id st)
+        (fun _ => False) batches) as L;
+      cbv beta in L; specialize (fun Hstep Hinit => L Hstep s0 Hinit)
+    end.
+    match type of L with ?Pstep -> ?Pinit -> _ => assert (Hstep : Pstep); [|assert (Hinit : Pinit); [|specialize (L Hstep Hinit)]] end.
+    - intros k ts st Hk HI. destruct_state st. cbn [fst snd] in *. unfold tri, vec in *. destruct HI as (Hwf & Hc & Hn & Hd).
+      (* the triangles of one batch *)
+      match goal with |- context [range_loop ?b 0%Z ts ?s0] =>
+        let S := type of s0 in
+        let pw := proj_of fw S in
+        let pc := proj_of Z S in
+        let Id := match constr:(Set) with
+                  | _ => let pd := proj_of (list N) S in constr:(fun st : S => length (pd st) = 13%nat)
+                  | _ => constr:(fun st : S => True)
+                  end in
+        pose proof (range_loop_inv b
+          (fun j st => wf (pw st) /\
+                       content (pw st) = content (pw s0) ++ flat_map (encode_triangle nrm) (firstn j ts) /\
+                       pc st = count_after (pc s0) (firstn j ts) /\ Id st)
+          (fun _ => False) ts) as Li;
+        cbv beta in Li; specialize (fun Hstep Hinit => Li Hstep s0 Hinit)
+      end.
+      cbn [fst snd] in Li.
+      match type of Li with ?Pstep -> ?Pinit -> _ => assert (Hstep : Pstep); [|assert (Hinit : Pinit); [|specialize (Li Hstep Hinit)]] end.
+      + intros j t st Hj HI. destruct_state st. cbn [fst snd] in *. unfold tri, vec in *. destruct HI as (Hwf' & Hc' & Hn' & Hd').
+        record_write_step t Hwf'.
+        cbn [fst snd]. split; [assumption|]. split; [|split].
+        * match goal with Hw : content ?w' = _ ++ encode_triangle nrm t |- content ?w' = _ => rewrite Hw end. rewrite Hc'.
+          rewrite (nth_error_firstn_S _ _ _ Hj), flat_map_app. cbn [flat_map]. rewrite app_nil_r. symmetry. apply app_assoc.
+        * rewrite (nth_error_firstn_S _ _ _ Hj), count_after_app, <- Hn'. reflexivity.
+        * first [exact I | rewrite ?set_slot_length; assumption].
+      + cbn [firstn flat_map]. rewrite app_nil_r. repeat split; try assumption; try reflexivity.
+      + match type of Li with match ?t with _ => _ end => destruct t as [st|r] end; [|contradiction].
+        destruct_state st. cbn [fst snd] in *. destruct Li as (Hwf' & Hc' & Hn' & Hd'). rewrite firstn_all in Hc', Hn'.
+        rewrite (concat_firstn_S _ _ _ Hk), flat_map_app, count_after_app.
+        split; [assumption|]. split; [|split].
+        * rewrite Hc', Hc, app_assoc. reflexivity.
+        * rewrite Hn', Hn. reflexivity.
+        * assumption.
+    - cbn [fst snd firstn concat flat_map]. rewrite app_nil_r. repeat split; try exact Hw1; try reflexivity.
+    - match type of L with match ?t with _ => _ end => destruct t as [st|r] end; [|contradiction].
+      destruct_state st. cbn [fst snd] in L. destruct L as (Hwf & Hc & Hn & _). rewrite firstn_all in Hc, Hn.
+      (* Flush, Seek(0, 0), the header again *)
+      match goal with |- context [GoSem.bufio_Flush ?w] =>
+        destruct (GoSem.bufio_Flush w) as [e2 w2] eqn:E2; apply bufio_Flush_spec in E2; [destruct E2 as (-> & Hw2 & Hd2 & Hb2) | exact Hwf]
+      end.
+      unfold GoSem.file_Seek. cbn [Z.ltb Z.compare err_nonnil Z.to_nat].
+      unfold GoSem.binary_Write_file. rewrite header_bytes by (rewrite ?set_slot_length; reflexivity).
+      change (zero_slots STLHeader_layout) with (repeat 0 81). rewrite nth_set_slot_last.
+      unfold GoSem.file_Write. cbn [fw_at fw_pos fw_disk err_nonnil firstn app Nat.add].
+      eexists. split; [reflexivity|]. cbn [fw_disk].
+      rewrite stream_eq_batch. unfold save.
+      subst. rewrite count_after_mod by (split; [lia | reflexivity]). rewrite Z.add_0_l.
+      fold (wrapu 32 (zlen (concat batches))). rewrite count_word.
+      rewrite Hd2, Hc, Hc1. cbn [content w0 fw_disk fw_buf app].
+      rewrite header_length, <- (header_length 0), skipn_exact. reflexivity.
   Qed.
 End Writers.
 
